@@ -345,10 +345,13 @@ impl Session {
                 for _ in 0..max(0, spawn_num) {
                     self.spawn_peer_handler();
                 }
+
+                // Tracker job ends after successful response
+                self.kill_tracker().await;
             }
+            // Tracker job is still running (it retries), so there is nothing to wait for
             TrackerCmd::Fail(e) => self.log(format!("Tracker fail: {}", e)).await,
         }
-        self.kill_tracker().await;
         #[cfg(rdest_verif)]
         self.verif_emit("Tracker", "", &format!("\"kind\":\"{}\"", verif_kind));
     }
